@@ -133,7 +133,16 @@ def scenario_for(seed, index, tier, _random_only=False):
     login = []
     if mode in ('compressed', 'both') and rng.random() < 0.5:
         login.append(['compress', threshold])
+    early_writer = False
     if mode in ('encrypted', 'both'):
+        if ids_for(proto)['cb.login.plugin_request'] is not None and \
+                rng.random() < 0.15:
+            # a writer that is active DURING the login: a plugin request
+            # comes right before the encryption request, the application
+            # takes it over and has another thread write the answer (forced)
+            # the moment the encryption response is on its way out
+            early_writer = True
+            login.append(['plugin', 7, 'c12:early', '0a'])
         login.append(['encrypt', {'bits': 1024, 'token_hex': '0a0b0c0d',
                                   'server_id': '-'}])
     if mode in ('compressed', 'both') and not any(
@@ -185,8 +194,11 @@ def scenario_for(seed, index, tier, _random_only=False):
     return {
         'proto': proto, 'mode': mode, 'threshold': threshold,
         'threads': threads, 'disc': disc, 'slow_out': slow_out,
+        'early_writer': early_writer,
         'second_party': second,
-        'server': {'conns': [{'login': login, 'play': play}] *
+        'server': {'conns': [dict({'login': login, 'play': play},
+                                  **({'pipeline_plugins': True}
+                                     if early_writer else {}))] *
                    (2 if second else 1)},
         'net': {'latency_us': rng.choice([50, 200, 2000]),
                 # now and then a send() blocks for a while (slow peer): the
@@ -409,6 +421,35 @@ def execute(scenario, tape):
                               handle_exception=lambda e, i: errors.append(e))
             st['conn'] = conn
             nthreads = len(psc['threads'])
+            if scenario.get('early_writer'):
+                from minecraft.networking.packets import clientbound
+                from minecraft.exceptions import IgnorePacket
+                asked = []
+
+                def on_request(p):
+                    asked.append(p.message_id)
+                    raise IgnorePacket
+
+                def on_enc_response(p):
+                    st['enc_response_on_its_way'] = True
+                    w.sleep(300 + 4000 * (pi % 2))
+
+                def answerer():
+                    w.wait_until(lambda: st.get('enc_response_on_its_way')
+                                 or errors, 30000000)
+                    for mid in list(asked):
+                        w.api('early-forced-answer', conn.write_packet,
+                              serverbound.login.PluginResponsePacket(
+                                  message_id=mid, successful=False),
+                              force=True)
+                conn.register_packet_listener(
+                    on_request, clientbound.login.PluginRequestPacket,
+                    early=True)
+                conn.register_packet_listener(
+                    on_enc_response,
+                    serverbound.login.EncryptionResponsePacket, early=True,
+                    outgoing=True)
+                w.sim.spawn(answerer, 'early%d' % pi)
             so = scenario.get('slow_out') if pi == 0 else None
             if so:
                 def slow(p):
